@@ -167,10 +167,14 @@ pub fn ref_prototype_ok(p: &[Rec], exts: &[(String, String)]) -> bool {
     if rc.is_some() != ri.is_some() {
         return false;
     }
-    for r in [rc, ri, get(p, "rowIndex"), get(p, "columnIndex")].into_iter().flatten() {
+    if let Some(r) = rc {
         if !is_int(&r.dt) {
             return false;
         }
+    }
+    // every record called rowIndex / columnIndex / returnIndex holds an integer
+    if p.iter().any(|r| (r.name.is("rowIndex") || r.name.is("columnIndex") || r.name.is("returnIndex")) && !is_int(&r.dt)) {
+        return false;
     }
     if let Some(r) = get(p, "isIntensityInvalid") {
         if !has(p, "intensity") || r.dt != DT::I(0, 1) {
@@ -181,6 +185,10 @@ pub fn ref_prototype_ok(p: &[Rec], exts: &[(String, String)]) -> bool {
         if !has(p, "timeStamp") || r.dt != DT::I(0, 1) {
             return false;
         }
+    }
+    // an integer range whose maximum lies below its minimum describes no value at all
+    if p.iter().any(|r| matches!(&r.dt, DT::I(a, b) | DT::S(a, b, ..) if a > b)) {
+        return false;
     }
     true
 }
@@ -587,11 +595,18 @@ pub fn compare(exp: &Scene, got: &Scene) -> Vec<Diff> {
     if exp.clouds.len() != got.clouds.len() {
         d.push(("C01", "clouds/count".into(), format!("{} point clouds finalized, reader lists {}", exp.clouds.len(), got.clouds.len())));
     }
+    // two prefixes bound to one URL denote the same XML namespace: a record name is compared as
+    // (namespace URL, local name), the prefix itself is not significant in XML
+    let url_of = |ns: &str| exp.exts.iter().find(|e| e.0 == ns).map(|e| e.1.clone());
+    let name_eq = |a: &RName, b: &RName| match (a, b) {
+        (RName::Ext(na, la), RName::Ext(nb, lb)) => la == lb && (na == nb || (url_of(na).is_some() && url_of(na) == url_of(nb))),
+        _ => a == b,
+    };
     for (i, (e, g)) in exp.clouds.iter().zip(got.clouds.iter()).enumerate() {
-        if e.proto.len() != g.proto.len() || e.proto.iter().zip(g.proto.iter()).any(|(a, b)| a.name != b.name || !dtype_eq(&a.dt, &b.dt)) {
-            let which = e.proto.iter().zip(g.proto.iter()).find(|(a, b)| a.name != b.name || !dtype_eq(&a.dt, &b.dt));
+        if e.proto.len() != g.proto.len() || e.proto.iter().zip(g.proto.iter()).any(|(a, b)| !name_eq(&a.name, &b.name) || !dtype_eq(&a.dt, &b.dt)) {
+            let which = e.proto.iter().zip(g.proto.iter()).find(|(a, b)| !name_eq(&a.name, &b.name) || !dtype_eq(&a.dt, &b.dt));
             let class = match which {
-                Some((a, b)) if a.name != b.name => {
+                Some((a, b)) if !name_eq(&a.name, &b.name) => {
                     if matches!(a.name, RName::Ext(..)) {
                         "prototype/extension-name"
                     } else {
@@ -655,6 +670,7 @@ pub fn compare(exp: &Scene, got: &Scene) -> Vec<Diff> {
         };
         if !il_eq {
             d.push(("C14", "limits/intensity".into(), format!("cloud {i}: expected {:?} stored {:?}", e.il, g.il)));
+            d.push(("C04", "limits/intensity".into(), format!("cloud {i}: expected {:?} stored {:?}", e.il, g.il)));
         }
         let cl_eq = match (&e.cl, &g.cl) {
             (Some(a), Some(b)) => a.iter().zip(b.iter()).all(|(x, y)| oveq(x, y)),
@@ -663,6 +679,7 @@ pub fn compare(exp: &Scene, got: &Scene) -> Vec<Diff> {
         };
         if !cl_eq {
             d.push(("C14", "limits/colour".into(), format!("cloud {i}: expected {:?} stored {:?}", e.cl, g.cl)));
+            d.push(("C04", "limits/colour".into(), format!("cloud {i}: expected {:?} stored {:?}", e.cl, g.cl)));
         }
     }
     if exp.images.len() != got.images.len() {
